@@ -16,19 +16,13 @@ CLAIMS = {
    note='Trusted: Coq kernel + vm_compute; translator expand2dfa.py and rustc -Zunpretty=expanded (validated each run against the real constructors); coq/Abnf.v as the '
         'reading of the RFCs; strict UTF-8 decoding of std modelled by the Python codec; routes/payload clause is tested, not proved.'),
  'C02': dict(cat='proof', tech='Coq proof (grammar factorisation by reflection + scanner inversion by induction) with model/implementation correspondence check',
-   text='Theorems C02_uri_reference / C02_iri_reference / C02_uri / C02_iri: every string of the RFC language is compose(p) of valid components and on it reference_parts, '
-        'abs_parts, scheme and each find_* scanner of the model return exactly the component ranges (absent vs empty distinguished); C02_slices: the ranges denote the components. '
-        'The model is the hand transcription of common/parse.rs; the check runs model, implementation and the RFC decomposition oracle on generated references of both families.',
+   text='Theorems C02_uri_reference / C02_iri_reference / C02_uri / C02_iri: every string of the RFC language is compose(p) of valid components and on it reference_parts, abs_parts, scheme and each find_* scanner of the model return exactly the component ranges (absent vs empty distinguished); C02_slices: the ranges denote the components; C02_iri_reference_bytes: the same on the UTF-8 BYTES of every IRI reference (transport lemma: the scanners only look at ASCII delimiters). The model is the hand transcription of common/parse.rs; the check runs model, implementation and the RFC decomposition oracle on generated references of both families, borrowed and owned.',
    note=TB + 'Grammar link: C01 (generated DFA = RFC regex) composes with these theorems.'),
  'C03': dict(cat='proof', tech='Coq proof (scanner inversion by induction over the authority text) with model/implementation correspondence check',
-   text='Theorems C03_parts (all-at-once decomposition = ranges of the composed parts for every wf authority) and C03_find_host (host scanner at any offset). user_info() and port() '
-        'individual scanners are modelled and compared with the implementation and the RFC oracle on generated authorities (not yet proved: partial).',
-   note=TB + 'The bridge from the RFC authority grammar to wf_aparts is not yet proved (the correspondence oracle composes from RFC-valid parts).'),
+   text='Theorems C03_uri_authority / C03_iri_authority: every string of the RFC authority language is [userinfo "@"] host [":" port] with each part in its own language, and the one-pass decomposition and the three individual scanners (user_info, host, port -- incl. find_port\'s labelled-continue loop) return exactly the ranges of those parts; C03_parts, C03_find_host, C03_find_user_info, C03_find_port at any offset of an enclosing buffer. Complete chain: grammar -> parts (factorisation by reflection) -> delimiter well-formedness -> scanners.',
+   note=TB),
  'C04': dict(cat='proof', tech='Coq proof (induction over setter sequences on top of the splice refinement) + model/implementation correspondence over random mutator sequences',
-   text='Theorem C04_setter_sequences_partial: every finite sequence of the five setters with valid arguments, from any well-formed reference, runs without panic in the L0 model '
-        '(bounds-checked indices, checked subtraction) and ends in compose p\' with p\' well-formed; C04_splice_total: the range splice never indexes out of bounds. Sequences mixing '
-        'the path handle, authority handle, normalize and in-place resolve are executed on the implementation (dev profile, catch_unwind, re-validation after EVERY call) and on the '
-        'extracted model of all of them; partial: their well-formedness preservation is proved only where C10/C11 theorems exist.',
+   text="Theorems C04_setter_sequences_partial and C04_mixed_sequences_partial: every finite sequence mixing the five setters, path push, path clear and whole histories of set_userinfo/set_host/set_port edits through one authority handle, with valid arguments, from any well-formed reference (whose authority is a well-formed [userinfo@]host[:port]) runs without panic in the index-level model (bounds-checked indices, checked subtraction) and ends in compose p' with p' again well-formed; C04_splice_total. Not covered by a theorem: pop, symbolic_push/append, normalize, resolve -- these are executed on the implementation (dev profile, catch_unwind, re-validation after EVERY call) and on the extracted model: partial.",
    note=TB),
  'C05': dict(cat='proof', tech='Coq proof (scanner value lemmas + splice refinement replace_spec) + model/implementation correspondence with a relational oracle',
    text='Theorems C05_set_scheme/_authority/_path/_query/_fragment: on compose p the L0 model of each setter returns compose p\' with exactly that component replaced, all others '
@@ -36,14 +30,10 @@ CLAIMS = {
         'C02 reads it back; C05_replace: tail-preserving splice for any tail length.',
    note=TB),
  'C11': dict(cat='proof', tech='Coq proof (handle invariant Inv, scanner value on the window, splice refinement) + correspondence over call sequences through one handle',
-   text='Theorems C11_view (under Inv the handle views exactly acompose a) and C11_set_host (no panic, Inv re-established for the updated authority, before/after untouched). '
-        'set_userinfo / set_port and whole call histories are modelled (L0, with the `end` arithmetic of the code) and compared with the implementation after every call; partial: '
-        'their Inv-preservation theorems are not yet proved.',
+   text='Theorems C11_view, C11_set_userinfo, C11_set_host, C11_set_port (each editor: no panic, the handle invariant is re-established for the authority with exactly that sub-component replaced, before/after untouched; all branches: replace, insert with delimiter, remove with delimiter, no-op) and C11_history: ANY finite history of calls through one handle with delimiter-valid arguments keeps the invariant, so the handle always views exactly the current authority. The model carries the `end` arithmetic of the code and is compared with the implementation after every call.',
    note=TB),
  'C12': dict(cat='proof', tech='Coq proof (induction over an arbitrary next/next_back script) + model/implementation correspondence with the /-split oracle',
-   text='Theorem C12_interleave: for every non-empty path pfx ++ join l and EVERY finite script of next/next_back calls the iterator model never panics and yields segment k from the '
-        'front, n-m-1 from the back, None after the cursors meet. Derived queries (first, last, file_name, directory, parent, counts) are modelled (PathQ.v) and compared with the '
-        'implementation and an independent split oracle.',
+   text="Theorems C12_interleave / C12_interleave_at (for every non-empty path and EVERY finite script of next/next_back calls the iterator model never panics and yields segment k from the front, n-m-1 from the back, None after the cursors meet), C12_segments_are_the_split (forward iteration of any path free of '?' '#' = the '/'-split of the text), C12_join_split. Derived queries (first, last, file_name, directory, parent, counts) are modelled (PathQ.v) and compared with the implementation and an independent split oracle.",
    note=TB),
  'C20': dict(cat='proof', tech='Coq proof of range ordering/containment over the scanner model; allocation counting and pointer-range observation in the harness',
    text='Theorems C20_reference_ranges / C20_authority_ranges: the ranges returned by the decomposition of any well-formed reference/authority are well-formed, ordered, disjoint and inside '
@@ -67,14 +57,10 @@ CLAIMS = {
         'through every Borrow impl between library types.',
    note=TB + 'derive(Ord/Hash) semantics of std (field order, Option discriminant as isize, [u8] length prefix) are modelled as observed.'),
  'C09': dict(cat='proof', tech='Coq proof (stack walk of the model = specification walk; normal form; idempotence) + correspondence with an RFC 5.2.4 oracle',
-   text='Theorems C09_normalized_segments (the range stack of NormalizedSegmentsImpl::new computes `norm` on the iterated segments), C09_normal_form, C09_idempotent, C09_render_segs. normalized() '
-        'and in-place normalize() (stand-alone and embedded, incl. > 16 segments / > 512 bytes, twice through one handle) are modelled (PathMut.v) and judged by the rendering oracle: partial. '
-        'Known findings K_G11, K_shield_left.',
+   text="Theorems C09_normalized_segments_of_text (for every path free of '?' and '#' the normalized-segment iterator of the model yields exactly `norm` -- drop '.', '..' pops / is kept when relative and nothing is left / is dropped at the root -- of the '/'-split of the text), C09_normalized_segments, C09_normal_form, C09_idempotent, C09_render_segs. normalized() and in-place normalize() (stand-alone and embedded, > 16 segments / > 512 bytes, twice through one handle) are modelled (PathMut.v) and judged by the rendering oracle: partial. Known findings K_G11, K_shield_left.",
    note=TB + 'Interpretations I4, I8.'),
  'C10': dict(cat='proof', tech='Coq proof of the push law for all byte strings + L0 handle model correspondence + list-semantics oracle per edit',
-   text='Theorem C10_push_law: push appends exactly the pushed segment (dot-free reading) for EVERY byte string and context, all five branches of the code. pop/clear/symbolic_push/'
-        'symbolic_append/normalize through ONE handle are modelled at index level (PathMut.v, the `end` arithmetic of the code) and compared after every edit with the implementation, with '
-        'list-semantics laws, frame (scheme/authority/query/fragment untouched, unambiguous), and the same edits through fresh handles: partial. Known findings K_pop_dslash, K_dot_only, K_G11.',
+   text="Theorems C10_push_law (push appends exactly the pushed segment, for EVERY byte string and context, all five branches), C10_push_handle (the same for the INDEX-LEVEL handle that is compared with the implementation: no panic, invariant buffer = before ++ view ++ after re-established, before/after untouched), C10_clear_handle, C10_clear_no_segments, C10_handle_sequences (any sequence of push/pop/clear through ONE handle performs the list-level edits of the view with coherent offsets and untouched surroundings, i.e. composes like fresh handles). pop's list law, symbolic_push/append and normalize are modelled and compared after every edit with list-semantics laws and frame checks: partial. Known findings K_pop_dslash, K_dot_only, K_G11.",
    note=TB + 'Interpretations I2, I9.'),
  'C13': dict(cat='proof', tech='Coq proof by reflection: inclusion certificates between the GENERATED validators (regenerated every run) and between the RFC grammars; conversions and cross-family agreement by differential testing',
    text='11 theorems C13_<a>_in_<b> on the DFAs translated from the current tree (every URI type is accepted by its IRI counterpart; Uri in UriRef; Iri in IriRef), plus C13_uri_is_iri, '
